@@ -45,8 +45,13 @@ def builtin_table():
                     g.matrix  # a wrong parameter count shows at the latest here
                 except Exception:
                     continue
-                t[name] = dict(kind="param", nq=g.num_qubits, hermitian=g.is_hermitian, ref=obj, nparams=k)
-                break
+                if name in t:
+                    # the same gate also takes more parameters (optional ones): every accepted count is a way
+                    # of giving "its parameters"
+                    t[name]["arities"].append(k)
+                    continue
+                t[name] = dict(kind="param", nq=g.num_qubits, hermitian=g.is_hermitian, ref=obj, nparams=k,
+                               arities=[k])
     _TABLE = t
     return t
 
